@@ -232,6 +232,64 @@ XsNext(r, cfgs, metas, xs, usedK, pre) ==
          [n \in DOMAIN xs |-> IF n \in usedK /\ metas[n].cacheName = r.x THEN X0 ELSE xs[n]]
     [] OTHER -> xs
 
+-----------------------------------------------------------------------------
+(* Concurrent sections (C03, C15, C16, C17, C18).  A `quiesce` record describes one complete     *)
+(* schedule of a short multi-threaded program run on the real code under the cooperative        *)
+(* scheduler: r.ops = per operation [t, i, op, f, k, exec, ret, bret, b, e, panic] (b / e = value *)
+(* of the scheduler's step counter when the operation began / ended), r.sts = state of every     *)
+(* cache once all threads have returned.  Caches start empty; body results are globally unique.  *)
+
+CallsOn(r, fixture) == {i \in DOMAIN r.ops : r.ops[i].op = "call" /\ r.ops[i].f = fixture}
+
+\* ghost to continue sequentially from an observed state
+GhostOf(c) ==
+  LET o == SelectSeq(c.order, LAMBDA x : x \in Dom(c)) IN
+  [fifo |-> o, lru |-> o, gh |-> [k \in Dom(c) |-> c.store[k].hits], val |-> [k \in Dom(c) |-> c.store[k].val]]
+
+\* every stored key is known to the eviction queue (queue orphans are tolerated), bounds hold
+QuiescentOK(cfg, c) == Dom(c) \subseteq SeqRange(c.order) /\ WithinLimits(cfg, c)
+
+QuiesceFails(r, cfgs, metas) ==
+  LET ops == r.ops
+      calls == {i \in DOMAIN ops : ops[i].op = "call"}
+      produced(f, k) == {ops[j].bret : j \in {j \in calls : ops[j].f = f /\ ops[j].k = k /\ ops[j].exec}}
+      resets == {i \in DOMAIN ops : ops[i].op = "stats_reset"}
+  IN
+  (IF \A n \in DOMAIN r.sts : QuiescentOK(cfgs[n], r.sts[n]) THEN {} ELSE {"C18"})
+  \* each call returns a value its own function produced for its own arguments
+  \cup (IF \A i \in calls : ~ops[i].panic =>
+            /\ ops[i].ret \in produced(ops[i].f, ops[i].k)
+            /\ ops[i].exec => ops[i].ret = ops[i].bret
+        THEN {} ELSE {"C18"})
+  \* ... and so is every value left in a cache
+  \cup (IF \A n \in DOMAIN r.sts : \A k \in Dom(r.sts[n]) :
+            r.sts[n].store[k].val \in produced(metas[n].fixture, k)
+        THEN {} ELSE {"C18"})
+  \* C03: no execution once a call that stored the result has returned
+  \cup (IF \A i \in calls : \A j \in calls :
+            ( /\ Unconfigured(cfgs[ops[i].f], metas[ops[i].f])
+              /\ i # j /\ ops[i].f = ops[j].f /\ ops[i].k = ops[j].k
+              /\ ops[j].exec /\ ops[j].e <= ops[i].b ) => ~ops[i].exec
+        THEN {} ELSE {"C03"})
+  \* C15: hits + misses = lookups; a lookup is a hit iff the body did not run
+  \cup (IF \A n \in DOMAIN r.sts :
+            (metas[n].stats /\ ~metas[n].hasInv /\ resets = {}) =>
+               /\ r.sts[n].hitsS = Cardinality({i \in CallsOn(r, metas[n].fixture) : ~ops[i].exec /\ ~ops[i].panic})
+               /\ r.sts[n].missS = Cardinality({i \in CallsOn(r, metas[n].fixture) : ops[i].exec /\ ~ops[i].panic})
+        THEN {} ELSE {"C15"})
+  \cup (IF r.panic THEN {"C16"} ELSE {})
+
+\* a reported deadlock is genuine: every blocked thread waits for a lock that another blocked
+\* thread holds in a conflicting mode
+Conflicts(mode, held) == ~(mode = "r" /\ held = "r")
+GenuineDeadlock(r) ==
+  /\ r.blocked # <<>>
+  /\ \A i \in DOMAIN r.blocked :
+       \E j \in DOMAIN r.blocked : j # i /\
+          \E h \in DOMAIN r.blocked[j].holds :
+             \E m \in {"r", "w", "x"} :
+                r.blocked[j].holds[h] = r.blocked[i].wants \o ":" \o m /\ Conflicts(r.blocked[i].mode, m)
+
 RegMeta(m) == [fixture |-> m.fixture, tags |-> m.tags, events |-> m.events, deps |-> m.deps]
 
 UsedNext(r, metas, usedK) ==
